@@ -600,8 +600,12 @@ impl RADAU {
                             hhfac = 0.8 * qnewt.powf(exponent);
                             h *= hhfac;
                             steps.rejected += 1;
+                            // Restart the step with the reduced size (as RADAU5 does): the stage increments computed so far
+                            // belong to the old h and must not reach the error test or the dense output
+                            reject = true;
                             last = false;
-                            break 'newton;
+                            call_decomp = true;
+                            continue 'main;
                         }
                     } else {
                         // Unexpected step rejection - continue with reduced step
